@@ -255,8 +255,9 @@ def run_driver(binary, driver, args, outdir, timeout=1200):
             stdout = "TIMEOUT after %ss (hang)" % timeout
         p = _P()
     aborted = None
-    if p.returncode < 0:
-        # the library under test killed the process (abort): this is data.
+    if p.returncode < 0 or p.returncode == 101:
+        # the library under test killed the process (abort, or a panic that
+        # escaped: exit code 101; the harness' own errors exit with 2): data.
         # Append an `abort` event to the chunk written last.
         chunks = sorted((os.path.join(outdir, f) for f in os.listdir(outdir) if f.endswith(".ndjson")),
                         key=os.path.getmtime)
@@ -274,11 +275,12 @@ def run_driver(binary, driver, args, outdir, timeout=1200):
                 continue
             what = e.get("what", e.get("ev", "?")) if e.get("ev") == "begin" else "after:" + e.get("ev", "?")
             break
-        lines.append(json.dumps({"ev": "abort", "signal": -p.returncode, "what": what}) + "\n")
+        sig = -p.returncode if p.returncode < 0 else 101
+        lines.append(json.dumps({"ev": "abort", "signal": sig, "what": what}) + "\n")
         with open(chunks[-1], "w") as f:
             f.writelines(lines)
-        aborted = {"what": what, "signal": -p.returncode, "file": chunks[-1], "stderr_tail": p.stdout[-1500:]}
-        log("driver %s died with signal %d during %s" % (driver, -p.returncode, what))
+        aborted = {"what": what, "signal": sig, "file": chunks[-1], "stderr_tail": p.stdout[-1500:]}
+        log("driver %s died with signal/exit %d during %s" % (driver, sig, what))
     elif p.returncode != 0:
         raise ToolError("driver failed (%d): %s\n%s" % (p.returncode, " ".join(cmd), p.stdout[-3000:]))
     sums = []
